@@ -146,7 +146,8 @@ both_families! {
 					let whole: String = $wrap;
 					let $r = match Ri::new(whole.as_str()) { Ok(r) => r, Err(_) => return Ok(false) };
 					let comp: &$T = match $get { Some(c) => c, None => return Ok(false) };
-					if comp.as_str() != t { return Ok(false) } // the text does not survive embedding (cannot happen for generator output)
+					// a valid component contains none of the delimiters that could split it, so it must come back unchanged
+					ensure!(comp.as_str() == t, "embedded-component-differs", "{:?} embedded in {:?} is read back as {:?}", t, whole, comp.as_str());
 					let v = guard(|| comp.as_pct_str()).map_err(|p| Failure::new(format!("as_pct_str-panics:{}", p.loc), format!("{:?}: as_pct_str() panicked: {}", t, p.msg)))?;
 					judge(case, v, cx)?;
 				} else {
@@ -244,10 +245,13 @@ impl Prop for C19 {
 
 	fn strategy(_tier: Tier) -> BoxedStrategy<Case> {
 		let mut pool: Vec<String> = gen::PCT_UTF8.iter().chain(gen::PCT_NONUTF8.iter()).map(|s| s.to_string()).collect();
-		pool.extend(["a", "b", "-", "~", "1", ".", "\u{e9}", "\u{8a9e}", "\u{10000}"].iter().map(|s| s.to_string()));
-		(gen::fam(), select(CKINDS.to_vec()), vec(select(pool), 0..8), any::<bool>())
-			.prop_map(|(fam, kind, v, embedded)| Case { fam, kind, text: v.concat(), embedded })
-			.boxed()
+		pool.extend(["a", "b", "-", "~", "1", ".", "abcdefgh"].iter().map(|s| s.to_string()));
+		pool.extend(gen::NONASCII.iter().map(|s| s.to_string()));
+		let tokens = (gen::fam(), select(CKINDS.to_vec()), vec(select(pool), 0..10), any::<bool>())
+			.prop_map(|(fam, kind, v, embedded)| Case { fam, kind, text: v.concat(), embedded });
+		// IP-literal hosts (nothing to decode, but the view must still be the whole host)
+		let literals = (gen::fam(), select(gen::IPV6_POOL.to_vec()), any::<bool>()).prop_map(|(fam, h, embedded)| Case { fam, kind: CKind::Host, text: h.to_string(), embedded });
+		prop_oneof![15 => tokens, 1 => literals].boxed()
 	}
 
 	fn check(case: &Case, cx: &mut Ctx) -> Result<(), Failure> {
